@@ -49,11 +49,21 @@ static void buildOperand(RSForm& f, const char* who, std::vector<EntityUID>& ids
   for (const auto u : ids) if (f.GetParse(u).status != ParsingStatus::VERIFIED) correct = false;
 }
 extern "C" void harness_main() {
-  RSForm a, b;
+  RSForm a;
   std::vector<EntityUID> ia, ib;
   bool ca = false, cb = false;
   buildOperand(a, "a-two-bases", ia, ca);
-  buildOperand(b, "b-two-bases", ib, cb);
+  // the second operand is built independently, or is an edited branch of the first (same identifiers and aliases)
+  const bool branch = sym_bool("b-is-branch-of-a");
+  RSForm b = branch ? RSForm(a) : RSForm();
+  if (!branch) buildOperand(b, "b-two-bases", ib, cb);
+  else {
+    ib = ia;
+    b.SetExpressionFor(ib.back(), DEFS1[pick(3, "branch-definition")]);
+    if (sym_bool("branch-adds")) ib.push_back(b.Emplace(CstType::term, DEFS2[pick(SECOND_TEMPLATES, "branch-template")]));
+    cb = true;
+    for (const auto u : ib) if (b.GetParse(u).status != ParsingStatus::VERIFIED) cb = false;
+  }
   // ---- equation table
   ops::EquationOptions table;
   const int pairs = pick(MAXPAIRS + 1, "pairs");
@@ -89,6 +99,11 @@ extern "C" void harness_main() {
     sym_assert(n == r.Core().size(), "result-list-complete");
     const auto& tr = op.Translations();
     sym_assert(tr.size() == 2, "two-translations");
+    if (sym_is_replay() && tr.size() == 2) {
+      for (const auto u : a.List()) sym_note(("operand 1: " + std::to_string(u) + " " + a.GetRS(u).alias + " := " + a.GetRS(u).definition + "  -> " + (tr[0].ContainsKey(u) ? std::to_string(tr[0](u)) : std::string("-"))).c_str());
+      for (const auto u : b.List()) sym_note(("operand 2: " + std::to_string(u) + " " + b.GetRS(u).alias + " := " + b.GetRS(u).definition + "  -> " + (tr[1].ContainsKey(u) ? std::to_string(tr[1](u)) : std::string("-"))).c_str());
+      for (const auto u : r.List()) sym_note(("result   : " + std::to_string(u) + " " + r.GetRS(u).alias + " := " + r.GetRS(u).definition).c_str());
+    }
     if (tr.size() == 2) {
       for (const auto u : ia) { sym_assert(tr[0].ContainsKey(u), "translation-1-total"); if (tr[0].ContainsKey(u)) sym_assert(r.Contains(tr[0](u)), "translation-1-into-result"); }
       for (const auto u : ib) { sym_assert(tr[1].ContainsKey(u), "translation-2-total"); if (tr[1].ContainsKey(u)) sym_assert(r.Contains(tr[1](u)), "translation-2-into-result"); }
@@ -100,6 +115,25 @@ extern "C" void harness_main() {
         if (!equated) sym_assert(r.GetRS(tr[0](u)).type == a.GetRS(u).type, "kind-preserved");
       }
     }
+    // every mention is rewritten to its image: the definition of the image of a constituent that was not equated is the
+    // operand's definition with each operand alias replaced (simultaneously) by the alias of the image of that constituent
+    if (tr.size() == 2)
+      for (int side = 0; side < 2; ++side) {
+        const RSForm& operand = side == 0 ? a : b;
+        const auto& ids = side == 0 ? ia : ib;
+        StrSubstitutes images;
+        bool total = true;
+        for (const auto u : ids) { if (tr[(size_t)side].ContainsKey(u) && r.Contains(tr[(size_t)side](u))) images[operand.GetRS(u).alias] = r.GetRS(tr[(size_t)side](u)).alias; else total = false; }
+        if (!total) continue;
+        for (const auto u : ids) {
+          bool equated = false;
+          for (const auto& c : chosen) if ((side == 0 ? c.first : c.second) == u) equated = true;
+          if (equated) continue;
+          std::string want = operand.GetRS(u).definition;
+          rslang::SubstituteGlobals(want, images);
+          sym_assert(r.GetRS(tr[(size_t)side](u)).definition == want, side == 0 ? "definition-of-image-mentions-images[operand 1]" : "definition-of-image-mentions-images[operand 2]");
+        }
+      }
     // no mention of a name that does not resolve (operands have none)
     for (const auto u : r.List())
       for (const auto& name : rslang::ExtractUGlobals(r.GetRS(u).definition))
@@ -118,15 +152,59 @@ extern "C" void harness_main() {
     }
     sym_reach("synthesised");
   }
-  // ---- duplicates inside one schema: merging a schema with itself and deleting duplicates gives it back
+#ifdef WITNESS
+  sym_assert(false, "witness");
+#endif
+}
+#elif PART == 4
+static const char* const DEFS1[] = {"X1\\X1", "\xE2\x84\xAC(X1)", "X1\xE2\x88\xAAX1"};
+static const char* const DEFS2[] = {"D1\\X1", "D1\xE2\x88\xAAX1", "\xE2\x84\xAC(D1)", "X1\xE2\x88\xAA" "1"};
+extern "C" void harness_main() {
+  // ---- duplicates inside one schema: a schema merged with itself once or twice (two / three identical copies of
+  // every constituent; removal of three copies happens in two rounds), then DeleteDuplicates
+  RSForm a;
+  std::vector<EntityUID> ia;
+  ia.push_back(a.Emplace(CstType::base));
+  ia.push_back(a.Emplace(CstType::term, DEFS1[pick(3, "d1")]));
+  if (sym_bool("with-d2")) ia.push_back(a.Emplace(CstType::term, DEFS2[pick(4, "d2-template")]));
+  if (sym_bool("with-text")) a.SetTermFor(ia[1], "term @{X1|nomn}");
   {
     RSForm twice(a);
     const auto moved = twice.Ops().MergeWith(a);
+    EntityTranslation movedAgain;
+    const bool three = sym_bool("three-copies");
+    if (three) movedAgain = twice.Ops().MergeWith(a);
     twice.UpdateState();
     const auto removed = twice.Ops().DeleteDuplicates();
     for (const auto u : ia) sym_assert(moved.ContainsKey(u) && (twice.Contains(moved(u)) || removed.ContainsKey(moved(u))), "merge-translation-total");
+    if (three) for (const auto u : ia) sym_assert(movedAgain.ContainsKey(u) && (twice.Contains(movedAgain(u)) || removed.ContainsKey(movedAgain(u))), "merge-translation-total");
     for (const auto& [gone, kept] : removed) sym_assert(!twice.Contains(gone) && twice.Contains(kept), "delete-duplicates-maps-removed-to-survivor");
     std::set<std::string> names; for (const auto u : twice.List()) sym_assert(names.insert(twice.GetRS(u).alias).second, "merged-aliases-unique");
+    for (const auto u : twice.List()) for (const auto& name : rslang::ExtractUGlobals(twice.GetRS(u).definition)) sym_assert(twice.Core().FindAlias(name).has_value(), "no-dangling-mention-after-duplicate-removal");
+    sym_reach("duplicates");
+  }
+  {
+    // n (2..4) textually identical derived constituents interleaved with others, one constituent mentioning a copy
+    RSForm f;
+    f.Emplace(CstType::base);
+    const int n = 2 + pick(3, "copies");
+    const char* def = DEFS1[pick(3, "copy-definition")];
+    std::vector<EntityUID> copies;
+    for (int k = 0; k < n; ++k) {
+      copies.push_back(f.Emplace(CstType::term, def));
+      if (k == 0 && sym_bool("other-between")) f.Emplace(CstType::term, "X1\xC3\x97X1");
+    }
+    const int mentioned = pick(n, "mentioned-copy");
+    const auto user = f.Emplace(CstType::term, "\xE2\x84\xAC(" + f.GetRS(copies[(size_t)mentioned]).alias + ")");
+    const auto removed = f.Ops().DeleteDuplicates();
+    size_t left = 0;
+    for (const auto u : copies) if (f.Contains(u)) ++left;
+    sym_assert(left == 1, "exactly-one-copy-survives");
+    for (const auto u : copies) if (!f.Contains(u)) sym_assert(removed.ContainsKey(u) && f.Contains(removed(u)), "removed-copy-maps-to-the-survivor");
+    for (const auto& [gone, kept] : removed) sym_assert(!f.Contains(gone) && f.Contains(kept), "delete-duplicates-maps-removed-to-survivor");
+    for (const auto& name : rslang::ExtractUGlobals(f.GetRS(user).definition)) sym_assert(f.Core().FindAlias(name).has_value(), "no-dangling-mention-after-duplicate-removal");
+    sym_assert(f.GetParse(user).status == ParsingStatus::VERIFIED, "user-of-a-copy-stays-correct");
+    sym_reach("copies");
   }
 #ifdef WITNESS
   sym_assert(false, "witness");
